@@ -94,7 +94,7 @@ def main() -> int:
         for i, h in enumerate(sim):
             gr_jobs.append(("grpsim:%d" % i, h, 12700, i))
         r3 = mc(work, "MC_Freeform", "a", "SPECIFICATION Spec\nCONSTANTS LO <- Neg%d\n HI = %d\n NOPS = %d\n NSCALE = %d\nINVARIANT ImplOK\nCHECK_DEADLOCK FALSE\n"
-                % ((2, 2, 2, 4) if thorough else (1, 1, 2, 3)), workers=1)
+                % ((2, 2, 2, 2) if thorough else (1, 1, 2, 3)), workers=1)
         cases = r3.printed("CASE")
         r3s = E.run_tlc("MC_Freeform", os.path.join(work, "MC_Freeform_s.cfg"), work=work, workers=1, timeout=900,
                         extra=["-simulate", "num=%d" % (3000 if thorough else 400), "-depth", "9", "-seed", str(E.seed() + 9)]) if _write(
